@@ -112,6 +112,38 @@ Proof.
 Qed.
 
 (* ------------------------------------------------------------------------------------------------ *)
+(*  perm_ofb decides Permutation                                                                      *)
+(* ------------------------------------------------------------------------------------------------ *)
+Lemma remove_one_perm : forall w l r, remove_one w l = Some r -> Permutation l (w :: r).
+Proof.
+  intros w l. induction l as [|x l IH]; intros r H; cbn [remove_one] in H; [discriminate|].
+  destruct (weqb w x) eqn:E.
+  - apply weqb_eq in E. inversion H; subst. apply Permutation_refl.
+  - destruct (remove_one w l) as [r'|]; [|discriminate]. inversion H; subst.
+    eapply Permutation_trans; [apply perm_skip, IH; reflexivity|apply perm_swap].
+Qed.
+Lemma remove_one_in : forall w l, In w l -> exists r, remove_one w l = Some r.
+Proof.
+  intros w l. induction l as [|x l IH]; intro H; [contradiction|]. cbn [remove_one].
+  destruct (weqb w x) eqn:E; [now exists l|]. destruct H as [H|H].
+  - subst. rewrite weqb_refl in E. discriminate.
+  - destruct (IH H) as [r Hr]. rewrite Hr. now exists (x :: r).
+Qed.
+Lemma perm_ofb_spec : forall a b, perm_ofb a b = true <-> Permutation a b.
+Proof.
+  induction a as [|x a IH]; intro b; cbn [perm_ofb].
+  - destruct b; split; intro H; try reflexivity; try discriminate.
+    + apply Permutation_nil in H. discriminate.
+  - split.
+    + destruct (remove_one x b) as [b'|] eqn:E; [|discriminate]. intro H. apply IH in H.
+      apply remove_one_perm in E. eapply Permutation_trans; [apply perm_skip, H|now apply Permutation_sym].
+    + intro H. assert (Hin : In x b) by (apply (Permutation_in _ H); now left).
+      destruct (remove_one_in x b Hin) as [b' E]. rewrite E. apply IH.
+      apply remove_one_perm in E. apply (Permutation_cons_inv (a := x)).
+      eapply Permutation_trans; [exact H|exact E].
+Qed.
+
+(* ------------------------------------------------------------------------------------------------ *)
 (*  lines / serialize                                                                                 *)
 (* ------------------------------------------------------------------------------------------------ *)
 Lemma lines_go_word : forall w acc rest,
@@ -180,6 +212,11 @@ Proof.
   destruct (path_eqb p q) eqn:E; cbn [assoc].
   - apply path_eqb_eq in E. subst q. now rewrite (path_eqb_neq _ _ H).
   - destruct (path_eqb p' q); [reflexivity|apply IH].
+Qed.
+Lemma assoc_del_same : forall p l, assoc p (assoc_del p l) = None.
+Proof.
+  intros p l. induction l as [|[q c'] t IH]; cbn [assoc_del assoc]; [reflexivity|].
+  destruct (path_eqb p q) eqn:E; cbn [assoc]; [exact IH|now rewrite E].
 Qed.
 Lemma fs_read_write_same : forall p c s, fs_read p (fs_write p c s) = Some c.
 Proof. intros. unfold fs_read, fs_write. cbn [files]. apply assoc_set_same. Qed.
@@ -343,7 +380,8 @@ Section Proofs.
   Lemma read_with_dir : forall d q s, fs_read q (with_dir d s) = fs_read q s.
   Proof. reflexivity. Qed.
 
-  (* mkdir; create q; write everything; flush — the part shared by both protocols *)
+  (* mkdir; create q; write everything (then flush): what save_dict did to the dictionary itself before
+     87b8642 and does to the temporary sibling now *)
   Definition write_phase (q : path) (ws : list word) : list effect :=
     EMkdir (parent q) :: ECreate q :: write_effects q ws.
   Definition after_create (q : path) (s : fsys) : fsys := fs_write q (Clean []) (with_dir (parent q) s).
@@ -362,17 +400,53 @@ Section Proofs.
     unfold after_flush. unfold after_create at 1. rewrite fs_read_write_same. reflexivity.
   Qed.
 
-  Lemma save_words_eq : forall p ws s, save_words p ws s = after_flush p ws s.
-  Proof.
-    intros p ws s. unfold save_words.
-    change (save_effects p ws) with (write_phase p ws ++ [EFlush p]).
-    now rewrite (run_opt_effects _ _ _ (run_flush p ws s)).
-  Qed.
   Lemma read_after_flush_same : forall p ws s, fs_read p (after_flush p ws s) = Some (Clean (serialize ws)).
   Proof. intros. unfold after_flush. apply fs_read_write_same. Qed.
   Lemma read_after_flush_other : forall p p' ws s, p' <> p -> fs_read p' (after_flush p ws s) = fs_read p' s.
   Proof.
     intros p p' ws s H. unfold after_flush, after_create. rewrite !fs_read_write_other by exact H. apply read_with_dir.
+  Qed.
+
+  (* save_dict as written now = the old protocol on the temporary sibling, then sync_all and rename *)
+  Lemma save_effects_eq : forall p ws,
+    save_effects p ws = save_effects_old (TmpP p) ws ++ [ESync (TmpP p); ERename (TmpP p) p].
+  Proof.
+    intros p ws. unfold save_effects, save_effects_old. cbn [app parent]. f_equal. f_equal.
+    now rewrite <- app_assoc.
+  Qed.
+  Lemma tmp_neq' : forall p, p <> TmpP p.
+  Proof. intros p E. symmetry in E. now apply tmp_neq in E. Qed.
+  (* the rename: the sibling's content becomes the dictionary's, the sibling is gone *)
+  Definition renamed (p : path) (s : fsys) (c : content) : fsys :=
+    mkfs (dirs s) (assoc_set p c (assoc_del (TmpP p) (files s))).
+  Definition after_save (p : path) (ws : list word) (s : fsys) : fsys :=
+    renamed p (after_flush (TmpP p) ws s) (Clean (serialize ws)).
+  Lemma read_renamed_same : forall p s c, fs_read p (renamed p s c) = Some c.
+  Proof. intros. unfold fs_read, renamed. cbn [files]. apply assoc_set_same. Qed.
+  Lemma read_renamed_tmp : forall p s c, fs_read (TmpP p) (renamed p s c) = None.
+  Proof.
+    intros. unfold fs_read, renamed. cbn [files]. rewrite assoc_set_other by apply tmp_neq. apply assoc_del_same.
+  Qed.
+  Lemma read_renamed_other : forall p q s c, q <> p -> q <> TmpP p -> fs_read q (renamed p s c) = fs_read q s.
+  Proof.
+    intros p q s c H1 H2. unfold fs_read, renamed. cbn [files]. rewrite assoc_set_other by exact H1.
+    now apply assoc_del_other.
+  Qed.
+  Lemma run_save : forall p ws s, run_opt (s, []) (save_effects p ws) = Some (after_save p ws s, []).
+  Proof.
+    intros p ws s. rewrite save_effects_eq.
+    change (save_effects_old (TmpP p) ws) with (write_phase (TmpP p) ws ++ [EFlush (TmpP p)]).
+    rewrite (run_opt_app _ _ _ _ (run_flush (TmpP p) ws s)). cbn [run_opt step].
+    now rewrite read_after_flush_same.
+  Qed.
+  Lemma save_words_eq : forall p ws s, save_words p ws s = after_save p ws s.
+  Proof. intros p ws s. unfold save_words. now rewrite (run_opt_effects _ _ _ (run_save p ws s)). Qed.
+  Lemma read_after_save_same : forall p ws s, fs_read p (after_save p ws s) = Some (Clean (serialize ws)).
+  Proof. intros. apply read_renamed_same. Qed.
+  Lemma read_after_save_other : forall p q ws s, q <> p -> q <> TmpP p -> fs_read q (after_save p ws s) = fs_read q s.
+  Proof.
+    intros p q ws s H1 H2. unfold after_save. rewrite read_renamed_other by assumption.
+    now apply read_after_flush_other.
   Qed.
 
   (* ---------------------------------------------------------------------------------------------- *)
@@ -381,7 +455,7 @@ Section Proofs.
   Lemma load_after_save_words : forall p ws s, Forall line_safe ws ->
     load_dict p (save_words p ws s) = Some (extend_words [] ws).
   Proof.
-    intros p ws s H. rewrite save_words_eq. unfold DictIO.load_dict. rewrite read_after_flush_same.
+    intros p ws s H. rewrite save_words_eq. unfold DictIO.load_dict. rewrite read_after_save_same.
     unfold DictIO.dict_from_word_list. now rewrite lines_serialize.
   Qed.
 
@@ -400,30 +474,35 @@ Section Proofs.
     now apply (proj1 (Forall_forall _ _) Hs).
   Qed.
 
-  Lemma load_other : forall p p' d s, p' <> p -> load_dict p' (save_dict p d s) = load_dict p' s.
+  (* no other file changes, except that the temporary sibling is gone *)
+  Lemma load_other : forall p p' d s, p' <> p -> p' <> TmpP p -> load_dict p' (save_dict p d s) = load_dict p' s.
   Proof.
-    intros p p' d s H. unfold DictIO.save_dict, DictIO.load_dict. rewrite save_words_eq.
-    now rewrite read_after_flush_other.
+    intros p p' d s H H'. unfold DictIO.save_dict, DictIO.load_dict. rewrite save_words_eq.
+    now rewrite read_after_save_other.
   Qed.
+  Lemma not_tmp_neq : forall q p, is_tmp q = false -> q <> TmpP p.
+  Proof. intros q p H E. subst q. discriminate. Qed.
 
   (* ---------------------------------------------------------------------------------------------- *)
   (*  adding a word                                                                                   *)
   (* ---------------------------------------------------------------------------------------------- *)
-  (* every dictionary file on disk loads to words that survive a rewrite (true of every file that was
-     written by save_dict from line-safe words, and of the empty file system) *)
-  Definition fs_ok (s : fsys) : Prop := forall p d, load_dict p s = Some d -> Forall line_safe (words_of d).
+  (* every dictionary file on disk (the temporary siblings, which are never read, excepted) loads to words
+     that survive a rewrite (true of every file that was written by save_dict from line-safe words, and of
+     the empty file system) *)
+  Definition fs_ok (s : fsys) : Prop :=
+    forall p d, is_tmp p = false -> load_dict p s = Some d -> Forall line_safe (words_of d).
 
   Lemma fs_ok_empty : fs_ok fs_empty.
-  Proof. intros p d H. discriminate. Qed.
+  Proof. intros p d _ H. discriminate. Qed.
 
   Lemma wf_dict_at : forall p s, dict_wf (dict_at p s).
   Proof.
     intros p s. unfold DictIO.dict_at, DictIO.load_dict. destruct (fs_read p s) as [[t|t]|]; try apply wf_nil.
     unfold DictIO.dict_from_word_list. apply wf_extend, wf_nil.
   Qed.
-  Lemma safe_dict_at : forall p s, fs_ok s -> Forall line_safe (words_of (dict_at p s)).
+  Lemma safe_dict_at : forall p s, fs_ok s -> is_tmp p = false -> Forall line_safe (words_of (dict_at p s)).
   Proof.
-    intros p s H. unfold DictIO.dict_at. destruct (load_dict p s) as [d|] eqn:E; [now apply (H p)|constructor].
+    intros p s H Hp. unfold DictIO.dict_at. destruct (load_dict p s) as [d|] eqn:E; [now apply (H p)|constructor].
   Qed.
   Lemma words_of_append : forall d w x, In x (words_of (append_word d w)) -> x = w \/ In x (words_of d).
   Proof.
@@ -433,54 +512,65 @@ Section Proofs.
     - right. unfold words_of. apply in_map_iff. exists (k, e). now split.
   Qed.
 
-  Lemma add_to_spec : forall p w s, fs_ok s -> line_safe w ->
+  Lemma safe_appended : forall p w s, fs_ok s -> is_tmp p = false -> line_safe w ->
+    Forall line_safe (words_of (append_word (dict_at p s) w)).
+  Proof.
+    intros p w s Hok Hp Hw. apply Forall_forall. intros x Hx. apply words_of_append in Hx.
+    destruct Hx as [Hx|Hx]; [now subst|]. now apply (proj1 (Forall_forall _ _) (safe_dict_at p s Hok Hp)).
+  Qed.
+
+  Lemma add_to_spec : forall p w s, fs_ok s -> is_tmp p = false -> line_safe w ->
     dict_equiv (dict_at p (add_to p w s)) (append_word (dict_at p s) w)
     /\ fs_ok (add_to p w s)
-    /\ forall p', p' <> p -> load_dict p' (add_to p w s) = load_dict p' s.
+    /\ forall p', p' <> p -> p' <> TmpP p -> load_dict p' (add_to p w s) = load_dict p' s.
   Proof.
-    intros p w s Hok Hw. unfold DictIO.add_to.
+    intros p w s Hok Hp Hw. unfold DictIO.add_to.
     set (D := append_word (dict_at p s) w).
     assert (HwfD : dict_wf D) by (apply wf_append, wf_dict_at).
-    assert (HsD : Forall line_safe (words_of D)).
-    { apply Forall_forall. intros x Hx. apply words_of_append in Hx. destruct Hx as [Hx|Hx]; [now subst|].
-      now apply (proj1 (Forall_forall _ _) (safe_dict_at p s Hok)). }
+    assert (HsD : Forall line_safe (words_of D)) by now apply safe_appended.
     destruct (save_load p D s HwfD HsD) as [d' [Hl [He [_ Hs']]]].
     split; [|split].
     - unfold DictIO.dict_at at 1. now rewrite Hl.
-    - intros q d0 Hq. destruct (path_eqb q p) eqn:E.
+    - intros q d0 Hq0 Hq. destruct (path_eqb q p) eqn:E.
       + apply path_eqb_eq in E. subst q. rewrite Hl in Hq. inversion Hq; now subst.
       + assert (q <> p) by (intro; subst; rewrite path_eqb_refl in E; discriminate).
-        rewrite load_other in Hq by assumption. now apply (Hok q).
-    - intros p' Hp'. now apply load_other.
+        rewrite load_other in Hq; [now apply (Hok q)|assumption|now apply not_tmp_neq].
+    - intros p' Hp' Hp''. now apply load_other.
   Qed.
 
-  Lemma dict_at_other : forall p p' w s, p' <> p -> dict_at p' (add_to p w s) = dict_at p' s.
+  Lemma dict_at_other : forall p p' w s, p' <> p -> p' <> TmpP p -> dict_at p' (add_to p w s) = dict_at p' s.
   Proof.
-    intros p p' w s H. unfold DictIO.dict_at, DictIO.add_to. now rewrite load_other.
+    intros p p' w s H H'. unfold DictIO.dict_at, DictIO.add_to. now rewrite load_other.
   Qed.
 
   (* ---------------------------------------------------------------------------------------------- *)
   (*  the accept decision                                                                             *)
   (* ---------------------------------------------------------------------------------------------- *)
-  Lemma exact_has : forall D w, normalized w = w -> lookup (wid w) D = Some (w, true) -> contains_exact_word D w = true.
+  Lemma wid_normalized : forall t, wid (normalized t) = wid t.
+  Proof. intro t. unfold DictIO.word_id. now rewrite normalized_idem. Qed.
+
+  (* the entry stored at w's id is w up to the kind of apostrophe: w is found by the exact test *)
+  Lemma exact_has : forall D w c, normalized c = normalized w -> lookup (wid w) D = Some (c, true) ->
+    contains_exact_word D w = true.
   Proof.
-    intros D w Hn H. unfold DictIO.contains_exact_word. rewrite Hn, H. cbn [fst]. apply weqb_refl.
+    intros D w c Hn H. unfold DictIO.contains_exact_word. rewrite wid_normalized, H. cbn [fst]. rewrite Hn.
+    apply weqb_refl.
   Qed.
   Lemma wf_lookup_dok : forall D k e, dict_wf D -> lookup k D = Some e -> snd e = true.
   Proof. intros D k e [_ H] L. apply lookup_in in L. now destruct (H k e L). Qed.
 
-  Lemma accepted_has : forall U F w,
-    normalized w = w ->
+  Lemma accepted_has : forall U F w c,
+    normalized c = normalized w ->
     (forall e, lookup (wid w) curated = Some e -> snd e = true) ->
     dict_wf U -> dict_wf F ->
-    lookup (wid w) U = Some (w, true) \/ lookup (wid w) F = Some (w, true) ->
+    lookup (wid w) U = Some (c, true) \/ lookup (wid w) F = Some (c, true) ->
     accepted [curated; U; F] w = true.
   Proof.
-    intros U F w Hn Hc HU HF Hhas. unfold DictIO.accepted.
+    intros U F w c Hn Hc HU HF Hhas. unfold DictIO.accepted.
     assert (Hex : m_contains_exact [curated; U; F] w = true).
     { unfold DictIO.m_contains_exact. cbn [existsb]. destruct Hhas as [H|H].
-      - rewrite (exact_has U w Hn H). now rewrite orb_true_r.
-      - rewrite (exact_has F w Hn H). now rewrite !orb_true_r. }
+      - rewrite (exact_has U w c Hn H). now rewrite orb_true_r.
+      - rewrite (exact_has F w c Hn H). now rewrite !orb_true_r. }
     rewrite Hex. cbn [orb].
     cbn [DictIO.m_get_meta]. unfold DictIO.get_meta.
     destruct (lookup (wid w) curated) as [e|] eqn:L1; [rewrite andb_true_r; now apply Hc|].
@@ -488,9 +578,6 @@ Section Proofs.
     destruct (lookup (wid w) F) as [e|] eqn:L3; [rewrite andb_true_r; now apply (wf_lookup_dok F _ _ HF L3)|].
     destruct Hhas; discriminate.
   Qed.
-
-  Lemma wid_normalized : forall t, wid (normalized t) = wid t.
-  Proof. intro t. unfold DictIO.word_id. now rewrite normalized_idem. Qed.
 
   (* the decision reads the children only at the ids of t and of to_lower t *)
   Lemma accepted_agree : forall U F U' F' t,
@@ -505,131 +592,6 @@ Section Proofs.
     reflexivity.
   Qed.
 
-  (* ---------------------------------------------------------------------------------------------- *)
-  (*  histories without crashes                                                                       *)
-  (* ---------------------------------------------------------------------------------------------- *)
-  Definition op_safe (o : op) : Prop :=
-    match o with AddWord _ w => line_safe w | CrashAdd _ _ _ => False | _ => True end.
-  Definition has_word (p : path) (w : word) (s : fsys) : Prop := lookup (wid w) (dict_at p s) = Some (w, true).
-
-  Lemma run_fs_cons : forall s o r, run_fs s (o :: r) = run_fs (fst (step_op s o)) r.
-  Proof.
-    intros s o r. unfold DictIO.run_fs. cbn [DictIO.run]. destruct (step_op s o) as [s' out]. cbn [fst].
-    destruct (run s' r). reflexivity.
-  Qed.
-  Lemma run_fs_app : forall h1 h2 s, run_fs s (h1 ++ h2) = run_fs (run_fs s h1) h2.
-  Proof.
-    induction h1 as [|o r IH]; intros h2 s; [reflexivity|]. cbn [app]. rewrite !run_fs_cons. apply IH.
-  Qed.
-
-  Lemma add_word_ok : forall sc w s, fs_ok s -> line_safe w -> fs_ok (add_word sc w s).
-  Proof.
-    intros sc w s H Hw. unfold DictIO.add_word. destruct (target sc) as [p|]; [|exact H].
-    now destruct (add_to_spec p w s H Hw) as [_ [H2 _]].
-  Qed.
-  Lemma step_ok : forall s o, fs_ok s -> op_safe o -> fs_ok (fst (step_op s o)).
-  Proof.
-    intros s o H Ho. destruct o as [sc w|u toks| |sc w i]; cbn [DictIO.step_op fst]; try exact H.
-    - now apply add_word_ok.
-    - contradiction.
-  Qed.
-  Lemma run_ok : forall h s, fs_ok s -> Forall op_safe h -> fs_ok (run_fs s h).
-  Proof.
-    induction h as [|o r IH]; intros s H Hh; [exact H|]. inversion Hh; subst. rewrite run_fs_cons.
-    apply IH; [now apply step_ok|assumption].
-  Qed.
-
-  Lemma add_establishes : forall sc w s p, fs_ok s -> line_safe w -> target sc = Some p ->
-    has_word p w (add_word sc w s).
-  Proof.
-    intros sc w s p H Hw Ht. unfold has_word, DictIO.add_word. rewrite Ht.
-    destruct (add_to_spec p w s H Hw) as [He _]. rewrite He. unfold DictIO.append_word. apply lookup_insert_same.
-  Qed.
-
-  Lemma step_keeps : forall p w s o, fs_ok s -> op_safe o -> has_word p w s ->
-    (forall sc' w', o = AddWord sc' w' -> target sc' = Some p -> wid w' = wid w -> w' = w) ->
-    has_word p w (fst (step_op s o)).
-  Proof.
-    intros p w s o H Ho Hh Hcol. destruct o as [sc w'|u toks| |sc w' i]; cbn [DictIO.step_op fst]; try exact Hh.
-    - cbn in Ho. unfold DictIO.add_word. destruct (target sc) as [p'|] eqn:Ht; [|exact Hh].
-      destruct (path_eqb p' p) eqn:E.
-      + apply path_eqb_eq in E. subst p'. unfold has_word. destruct (add_to_spec p w' s H Ho) as [He _].
-        rewrite He. unfold DictIO.append_word.
-        destruct (weqb (wid w') (wid w)) eqn:Ew.
-        * apply weqb_eq in Ew. rewrite (Hcol sc w' eq_refl Ht Ew). rewrite <- Ew at 1.
-          rewrite (Hcol sc w' eq_refl Ht Ew). apply lookup_insert_same.
-        * apply weqb_neq in Ew. rewrite lookup_insert_other by congruence. exact Hh.
-      + assert (p <> p') by (intro; subst; rewrite path_eqb_refl in E; discriminate).
-        unfold has_word. now rewrite dict_at_other.
-    - contradiction.
-  Qed.
-
-  Lemma run_keeps : forall p w h s, fs_ok s -> Forall op_safe h -> has_word p w s ->
-    (forall sc' w', In (AddWord sc' w') h -> target sc' = Some p -> wid w' = wid w -> w' = w) ->
-    has_word p w (run_fs s h).
-  Proof.
-    intros p w. induction h as [|o r IH]; intros s H Hh Hw Hcol; [exact Hw|].
-    inversion Hh; subst. rewrite run_fs_cons. apply IH.
-    - now apply step_ok.
-    - assumption.
-    - apply step_keeps; try assumption. intros sc' w' E. subst o. apply Hcol. now left.
-    - intros sc' w' Hin. apply Hcol. now right.
-  Qed.
-
-  (* after AddWord sc w, every later check of a document in scope accepts w — across further adds, checks and
-     restarts, provided the three known classes are excluded (see the _refuted theorems) *)
-  Theorem add_sequential : forall s0 h1 sc w h2 u p,
-    fs_ok s0 ->
-    Forall op_safe (h1 ++ AddWord sc w :: h2) ->
-    normalized w = w ->
-    (forall e, lookup (wid w) curated = Some e -> snd e = true) ->
-    target sc = Some p ->
-    (forall sc' w', In (AddWord sc' w') h2 -> target sc' = Some p -> wid w' = wid w -> w' = w) ->
-    (p = UserP \/ exists n, file_dict_name u = Some n /\ p = FileP n) ->
-    accepted (children (run_fs s0 (h1 ++ AddWord sc w :: h2)) u) w = true.
-  Proof.
-    intros s0 h1 sc w h2 u p H0 Hsafe Hn Hc Ht Hcol Hscope.
-    apply Forall_app in Hsafe. destruct Hsafe as [Hs1 Hs2]. inversion Hs2 as [|? ? Hw Hs3]; subst.
-    rewrite run_fs_app, run_fs_cons. cbn [DictIO.step_op fst].
-    set (s1 := run_fs s0 h1). assert (H1 : fs_ok s1) by now apply run_ok.
-    assert (Hhas : has_word p w (run_fs (add_word sc w s1) h2)).
-    { apply run_keeps; try assumption; [now apply add_word_ok|now apply add_establishes]. }
-    unfold DictIO.children. apply accepted_has; try assumption; try apply wf_dict_at.
-    - unfold DictIO.file_dict. destruct (file_dict_name u); [apply wf_dict_at|apply wf_nil].
-    - destruct Hscope as [Hp|[n [Hn1 Hn2]]]; subst p; [now left|right]. unfold DictIO.file_dict. now rewrite Hn1.
-  Qed.
-
-  (* a word added to the dictionary of one file leaves the checks of every document with another
-     dictionary file exactly as they were *)
-  Theorem file_scope : forall u0 n w s u toks,
-    file_dict_name u0 = Some n -> file_dict_name u <> Some n ->
-    lint (add_word (SFile u0) w s) u toks = lint s u toks.
-  Proof.
-    intros u0 n w s u toks H0 Hu. unfold DictIO.lint, DictIO.children, DictIO.add_word. cbn [target]. rewrite H0.
-    rewrite dict_at_other by discriminate.
-    assert (E : file_dict u (add_to (FileP n) w s) = file_dict u s).
-    { unfold DictIO.file_dict. destruct (file_dict_name u) as [n'|]; [|reflexivity].
-      apply dict_at_other. intro E. inversion E. subst. now apply Hu. }
-    now rewrite E.
-  Qed.
-
-  (* ... and an add changes the verdict on no word with another id *)
-  Theorem other_words_unchanged : forall sc w s u t,
-    fs_ok s -> line_safe w ->
-    wid t <> wid w -> wid (to_lower t) <> wid w ->
-    accepted (children (add_word sc w s) u) t = accepted (children s u) t.
-  Proof.
-    intros sc w s u t H Hw H1 H2. unfold DictIO.children, DictIO.add_word.
-    destruct (target sc) as [p|] eqn:Ht; [|reflexivity].
-    assert (Hk : forall q k, k = wid t \/ k = wid (to_lower t) -> lookup k (dict_at q (add_to p w s)) = lookup k (dict_at q s)).
-    { intros q k Hk. destruct (path_eqb q p) eqn:E.
-      - apply path_eqb_eq in E. subst q. destruct (add_to_spec p w s H Hw) as [He _]. rewrite He.
-        unfold DictIO.append_word. apply lookup_insert_other. destruct Hk; subst k; congruence.
-      - assert (q <> p) by (intro; subst; rewrite path_eqb_refl in E; discriminate). now rewrite dict_at_other. }
-    apply accepted_agree.
-    - intros k Hkk. now apply Hk.
-    - intros k Hkk. unfold DictIO.file_dict. destruct (file_dict_name u); [now apply Hk|reflexivity].
-  Qed.
 
   (* ---------------------------------------------------------------------------------------------- *)
   (*  crash states                                                                                    *)
@@ -742,14 +704,15 @@ Section Proofs.
   Lemma read_after_create_other : forall q q' s, q' <> q -> fs_read q' (after_create q s) = fs_read q' s.
   Proof. intros q q' s H. unfold after_create. rewrite fs_read_write_other by exact H. apply read_with_dir. Qed.
 
-  (* every crash state of save_dict: the target file is as before, or a prefix of the new content;
+  (* every crash state of the create-write-flush protocol (save_dict before 87b8642; now applied to the
+     temporary sibling): the file is as before, or a prefix of the new content;
      no other file changes *)
-  Lemma save_crash_sound : forall p ws s s',
-    In s' (crash_states None (s, []) (save_effects p ws)) ->
+  Lemma partial_crash_sound : forall p ws s s',
+    In s' (crash_states None (s, []) (save_effects_old p ws)) ->
     (fs_read p s' = fs_read p s \/ exists c, fs_read p s' = Some c /\ in_pv [] (serialize ws) c)
     /\ forall q, q <> p -> fs_read q s' = fs_read q s.
   Proof.
-    intros p ws s s' H. unfold save_effects in H. cbn [crash_states] in H.
+    intros p ws s s' H. unfold save_effects_old in H. cbn [crash_states] in H.
     rewrite crash_variants_nobuf in H. destruct H as [H|H]; [subst s'; split; [now left|reflexivity]|].
     cbn [step] in H. fold (with_dir (parent p) s) in H. rewrite crash_variants_nobuf in H.
     destruct H as [H|H]; [subst s'; split; [now left|reflexivity]|].
@@ -761,10 +724,10 @@ Section Proofs.
     - intros q Hq. rewrite H3 by exact Hq. now apply read_after_create_other.
   Qed.
 
-  Lemma save_crash_complete : forall p ws s c, in_pv [] (serialize ws) c ->
-    exists s', In s' (crash_states None (s, []) (save_effects p ws)) /\ fs_read p s' = Some c.
+  Lemma partial_crash_complete : forall p ws s c, in_pv [] (serialize ws) c ->
+    exists s', In s' (crash_states None (s, []) (save_effects_old p ws)) /\ fs_read p s' = Some c.
   Proof.
-    intros p ws s c H. change (save_effects p ws) with (write_phase p ws ++ [EFlush p]).
+    intros p ws s c H. change (save_effects_old p ws) with (write_phase p ws ++ [EFlush p]).
     destruct (serialize ws) as [|b t] eqn:E.
     - apply in_pv_nil in H. subst c. exists (after_create p s). split; [|apply read_after_create_same].
       apply (crash_states_app_intro _ _ _ _ _ _ (run_write_phase p ws s)). rewrite E.
@@ -796,10 +759,10 @@ Section Proofs.
     - apply content_eqb_eq in H. now subst.
     - inversion H. now apply content_eqb_eq.
   Qed.
-  Lemma crash_possibleb_pv : forall old total obs,
-    crash_possibleb old total obs = true <-> obs = old \/ exists c, obs = Some c /\ in_pv [] total c.
+  Lemma partial_possibleb_pv : forall old total obs,
+    partial_possibleb old total obs = true <-> obs = old \/ exists c, obs = Some c /\ in_pv [] total c.
   Proof.
-    intros old total obs. unfold crash_possibleb. rewrite orb_true_iff, ocontent_eqb_eq. split.
+    intros old total obs. unfold partial_possibleb. rewrite orb_true_iff, ocontent_eqb_eq. split.
     - intros [H|H]; [now left|right]. destruct obs as [[t|t]|]; [| |discriminate].
       + destruct (strip_prefix t total) as [r|] eqn:E; [|discriminate]. apply strip_prefix_spec in E.
         exists (Clean t). split; [reflexivity|]. exists t, r. split; [exact E|now left].
@@ -813,103 +776,539 @@ Section Proofs.
         now rewrite Hx.
   Qed.
 
-  Theorem crash_possibleb_spec : forall p ws s obs,
-    crash_possibleb (fs_read p s) (serialize ws) obs = true <->
-    exists s', In s' (crash_states None (s, []) (save_effects p ws)) /\ fs_read p s' = obs.
+  Lemma partial_possibleb_spec : forall p ws s obs,
+    partial_possibleb (fs_read p s) (serialize ws) obs = true <->
+    exists s', In s' (crash_states None (s, []) (save_effects_old p ws)) /\ fs_read p s' = obs.
   Proof.
-    intros p ws s obs. rewrite crash_possibleb_pv. split.
+    intros p ws s obs. rewrite partial_possibleb_pv. split.
     - intros [H|[c [H1 H2]]].
       + subst obs. exists s. split; [|reflexivity]. apply crash_states_head. rewrite crash_variants_nobuf. now left.
-      + subst obs. now apply save_crash_complete.
-    - intros [s' [H1 H2]]. subst obs. destruct (save_crash_sound p ws s s' H1) as [[H|[c [Hc Hpv]]] _].
+      + subst obs. now apply partial_crash_complete.
+    - intros [s' [H1 H2]]. subst obs. destruct (partial_crash_sound p ws s s' H1) as [[H|[c [Hc Hpv]]] _].
       + now left.
       + right. now exists c.
   Qed.
 
   (* ---------------------------------------------------------------------------------------------- *)
-  (*  the proposed repair: temporary sibling + rename                                                 *)
+  (*  save_dict as written now: temporary sibling, flush, sync_all, rename                            *)
   (* ---------------------------------------------------------------------------------------------- *)
-  Lemma atomic_effects_eq : forall p ws,
-    atomic_save_effects p ws = save_effects (TmpP p) ws ++ [ERename (TmpP p) p].
+  Lemma crash_states_app_left : forall e1 e2 o st s',
+    In s' (crash_states o st e1) -> In s' (crash_states o st (e1 ++ e2)).
   Proof.
-    intros p ws. unfold atomic_save_effects, save_effects. cbn [app parent]. f_equal. f_equal.
-    now rewrite <- app_assoc.
+    induction e1 as [|e r IH]; intros e2 o st s' H.
+    - cbn [crash_states] in H. rewrite app_nil_r in H. now apply crash_states_head.
+    - cbn [app crash_states] in *. apply in_app_or in H. apply in_or_app. destruct H as [H|H]; [now left|right].
+      destruct (step st e) as [st'|]; [now apply IH|contradiction].
   Qed.
-  Theorem atomic_crash : forall p ws s s',
-    In s' (crash_states None (s, []) (atomic_save_effects p ws)) ->
+  Lemma in_pv_full : forall t, in_pv [] t (Clean t).
+  Proof. intro t. exists t, []. split; [now rewrite app_nil_r|now left]. Qed.
+
+  (* every crash state of save_dict: the dictionary is as before and its temporary sibling is as before or
+     holds a prefix of the new text; or the dictionary holds the complete new text and the sibling is gone.
+     No other file changes. *)
+  Lemma save_crash_sound : forall p ws s s',
+    In s' (crash_states None (s, []) (save_effects p ws)) ->
+    ((fs_read p s' = fs_read p s /\
+      (fs_read (TmpP p) s' = fs_read (TmpP p) s \/ exists c, fs_read (TmpP p) s' = Some c /\ in_pv [] (serialize ws) c))
+     \/ (fs_read p s' = Some (Clean (serialize ws)) /\ fs_read (TmpP p) s' = None))
+    /\ forall q, q <> p -> q <> TmpP p -> fs_read q s' = fs_read q s.
+  Proof.
+    intros p ws s s' H. rewrite save_effects_eq in H.
+    apply crash_states_app_in in H. destruct H as [H|[st1 [Hr H]]].
+    - destruct (partial_crash_sound (TmpP p) ws s s' H) as [Ht Hf]. split.
+      + left. split; [apply Hf, tmp_neq'|exact Ht].
+      + intros q H1 H2. now apply Hf.
+    - change (save_effects_old (TmpP p) ws) with (write_phase (TmpP p) ws ++ [EFlush (TmpP p)]) in Hr.
+      rewrite run_flush in Hr. inversion Hr; subst st1. clear Hr.
+      assert (Hfl : (fs_read p (after_flush (TmpP p) ws s) = fs_read p s /\
+                (fs_read (TmpP p) (after_flush (TmpP p) ws s) = fs_read (TmpP p) s \/
+                 exists c, fs_read (TmpP p) (after_flush (TmpP p) ws s) = Some c /\ in_pv [] (serialize ws) c))).
+      { split; [apply read_after_flush_other, tmp_neq'|right]. exists (Clean (serialize ws)).
+        split; [apply read_after_flush_same|apply in_pv_full]. }
+      cbn [crash_states step] in H. rewrite !crash_variants_nobuf in H. rewrite read_after_flush_same in H.
+      rewrite crash_variants_nobuf in H. cbn [app In] in H.
+      destruct H as [H|[H|[H|[]]]]; subst s'.
+      + split; [now left|]. intros q H1 H2. now apply read_after_flush_other.
+      + split; [now left|]. intros q H1 H2. now apply read_after_flush_other.
+      + fold (renamed p (after_flush (TmpP p) ws s) (Clean (serialize ws))). split.
+        * right. split; [apply read_renamed_same|apply read_renamed_tmp].
+        * intros q H1 H2. rewrite read_renamed_other by assumption. now apply read_after_flush_other.
+  Qed.
+
+  (* the dictionary file itself: old or complete new content at every crash point *)
+  Theorem crash_save : forall p ws s s',
+    In s' (crash_states None (s, []) (save_effects p ws)) ->
     fs_read p s' = fs_read p s \/ fs_read p s' = Some (Clean (serialize ws)).
   Proof.
-    intros p ws s s' H.
-    rewrite atomic_effects_eq in H.
-    apply crash_states_app_in in H. destruct H as [H|[st1 [Hr H]]].
-    - left. destruct (save_crash_sound (TmpP p) ws s s' H) as [_ Hf]. apply Hf. intro E. symmetry in E. now apply tmp_neq in E.
-    - change (save_effects (TmpP p) ws) with (write_phase (TmpP p) ws ++ [EFlush (TmpP p)]) in Hr.
-      rewrite run_flush in Hr. inversion Hr; subst st1. cbn [crash_states] in H.
-      rewrite crash_variants_nobuf in H. destruct H as [H|H].
-      + subst s'. left. apply read_after_flush_other. intro E. symmetry in E. now apply tmp_neq in E.
-      + cbn [step] in H. rewrite read_after_flush_same in H. rewrite crash_variants_nobuf in H.
-        cbn [app] in H. destruct H as [H|[]]. subst s'. right. unfold fs_read. cbn [files]. apply assoc_set_same.
+    intros p ws s s' H. destruct (save_crash_sound p ws s s' H) as [[[H1 _]|[H1 _]] _]; [now left|now right].
   Qed.
 
-  Lemma atomic_save_read : forall p ws s, fs_read p (atomic_save_words p ws s) = Some (Clean (serialize ws)).
+  Lemma save_final_state : forall p ws s, In (after_save p ws s) (crash_states None (s, []) (save_effects p ws)).
   Proof.
-    intros p ws s. unfold atomic_save_words.
-    rewrite atomic_effects_eq. change (save_effects (TmpP p) ws) with (write_phase (TmpP p) ws ++ [EFlush (TmpP p)]).
-    assert (R : run_opt (s, []) ((write_phase (TmpP p) ws ++ [EFlush (TmpP p)]) ++ [ERename (TmpP p) p])
-                = Some (mkfs (dirs (after_flush (TmpP p) ws s))
-                             (assoc_set p (Clean (serialize ws)) (assoc_del (TmpP p) (files (after_flush (TmpP p) ws s)))), [])).
-    { rewrite (run_opt_app _ _ _ _ (run_flush (TmpP p) ws s)). cbn [run_opt step]. now rewrite read_after_flush_same. }
-    rewrite (run_opt_effects _ _ _ R). cbn [fst]. unfold fs_read. cbn [files]. apply assoc_set_same.
+    intros p ws s. rewrite <- (app_nil_r (save_effects p ws)).
+    apply (crash_states_app_intro _ _ _ _ _ _ (run_save p ws s)). cbn [crash_states].
+    rewrite crash_variants_nobuf. now left.
   Qed.
 
-  (* with the repaired save, a crash during an add loses at most the word being added *)
-  Theorem atomic_add_crash : forall p w s s', fs_ok s -> line_safe w ->
-    In s' (crash_states None (s, []) (atomic_save_effects p (words_iter (append_word (dict_at p s) w)))) ->
+  (* the decision function used by the model driver on what a real crash left on disk *)
+  Theorem crash_possibleb_spec : forall p ws s obs obstmp,
+    crash_possibleb (fs_read p s) (fs_read (TmpP p) s) (serialize ws) obs obstmp = true <->
+    exists s', In s' (crash_states None (s, []) (save_effects p ws)) /\ fs_read p s' = obs /\ fs_read (TmpP p) s' = obstmp.
+  Proof.
+    intros p ws s obs obstmp. unfold crash_possibleb. rewrite orb_true_iff, !andb_true_iff, !ocontent_eqb_eq. split.
+    - intros [[H1 H2]|[H1 H2]].
+      + apply (partial_possibleb_spec (TmpP p) ws s obstmp) in H2. destruct H2 as [s' [Hin Hr]].
+        exists s'. split; [rewrite save_effects_eq; now apply crash_states_app_left|]. split; [|exact Hr].
+        subst obs. destruct (partial_crash_sound (TmpP p) ws s s' Hin) as [_ Hf]. apply Hf, tmp_neq'.
+      + subst obs obstmp. exists (after_save p ws s). split; [apply save_final_state|].
+        split; [apply read_after_save_same|apply read_renamed_tmp].
+    - intros [s' [Hin [H1 H2]]]. subst obs obstmp.
+      destruct (save_crash_sound p ws s s' Hin) as [[[Ha Hb]|[Ha Hb]] _].
+      + left. split; [exact Ha|]. apply partial_possibleb_pv. destruct Hb as [Hb|[c [Hc Hpv]]]; [now left|right].
+        now exists c.
+      + right. now split.
+  Qed.
+
+  (* reading back a file that holds the complete serialisation of a dictionary *)
+  Lemma load_serialized : forall p s' D, dict_wf D -> Forall line_safe (words_of D) ->
+    fs_read p s' = Some (Clean (serialize (words_iter D))) ->
+    exists d', load_dict p s' = Some d' /\ dict_equiv d' D /\ Forall line_safe (words_of d').
+  Proof.
+    intros p s' D Hwf Hsafe H.
+    assert (Hs : Forall line_safe (words_iter D)).
+    { apply Forall_forall. intros x Hx. apply (Permutation_in _ (iter_perm _)) in Hx.
+      now apply (proj1 (Forall_forall _ _) Hsafe). }
+    exists (extend_words [] (words_iter D)). split; [|split].
+    - unfold DictIO.load_dict. rewrite H. unfold DictIO.dict_from_word_list. now rewrite lines_serialize.
+    - apply extend_perm_equiv; [exact Hwf|apply iter_perm].
+    - apply Forall_forall. intros w Hw. apply extend_words_in in Hw. destruct Hw as [Hw|[]].
+      now apply (proj1 (Forall_forall _ _) Hs).
+  Qed.
+
+  (* a crash during an add loses at most the word being added *)
+  Theorem add_crash : forall p w s s', fs_ok s -> is_tmp p = false -> line_safe w ->
+    In s' (crash_states None (s, []) (save_effects p (words_iter (append_word (dict_at p s) w)))) ->
     dict_at p s' = dict_at p s \/ dict_equiv (dict_at p s') (append_word (dict_at p s) w).
   Proof.
-    intros p w s s' Hok Hw H. apply atomic_crash in H. destruct H as [H|H].
+    intros p w s s' Hok Hp Hw H. apply crash_save in H. destruct H as [H|H].
     - left. unfold DictIO.dict_at, DictIO.load_dict. now rewrite H.
     - right. set (D := append_word (dict_at p s) w) in *.
       assert (HwfD : dict_wf D) by (apply wf_append, wf_dict_at).
-      assert (HsD : Forall line_safe (words_of D)).
-      { apply Forall_forall. intros x Hx. apply words_of_append in Hx. destruct Hx as [Hx|Hx]; [now subst|].
-        now apply (proj1 (Forall_forall _ _) (safe_dict_at p s Hok)). }
-      assert (Hs : Forall line_safe (words_iter D)).
-      { apply Forall_forall. intros x Hx. apply (Permutation_in _ (iter_perm _)) in Hx.
-        now apply (proj1 (Forall_forall _ _) HsD). }
-      unfold DictIO.dict_at, DictIO.load_dict. rewrite H. unfold DictIO.dict_from_word_list.
-      rewrite lines_serialize by exact Hs. apply extend_perm_equiv; [exact HwfD|apply iter_perm].
+      assert (HsD : Forall line_safe (words_of D)) by now apply safe_appended.
+      destruct (load_serialized p s' D HwfD HsD H) as [d' [Hl [He _]]].
+      unfold DictIO.dict_at at 1. now rewrite Hl.
   Qed.
+
+
+  (* ---------------------------------------------------------------------------------------------- *)
+  (*  histories: adds, checks, restarts and adds that die at an arbitrary crash point                  *)
+  (* ---------------------------------------------------------------------------------------------- *)
+  Definition op_safe (o : op) : Prop :=
+    match o with AddWord _ w => line_safe w | CrashAdd _ w _ => line_safe w | _ => True end.
+  (* the add an operation performs (completely, or up to some crash point) *)
+  Definition op_add (o : op) : option (scope * word) :=
+    match o with AddWord sc w => Some (sc, w) | CrashAdd sc w _ => Some (sc, w) | _ => None end.
+  (* the dictionary at p has, at w's id, w itself or w with another kind of apostrophe *)
+  Definition has_word (p : path) (w : word) (s : fsys) : Prop :=
+    exists c, lookup (wid w) (dict_at p s) = Some (c, true) /\ normalized c = normalized w.
+
+  Lemma run_fs_cons : forall s o r, run_fs s (o :: r) = run_fs (fst (step_op s o)) r.
+  Proof.
+    intros s o r. unfold DictIO.run_fs. cbn [DictIO.run]. destruct (step_op s o) as [s' out]. cbn [fst].
+    destruct (run s' r). reflexivity.
+  Qed.
+  Lemma run_fs_app : forall h1 h2 s, run_fs s (h1 ++ h2) = run_fs (run_fs s h1) h2.
+  Proof.
+    induction h1 as [|o r IH]; intros h2 s; [reflexivity|]. cbn [app]. rewrite !run_fs_cons. apply IH.
+  Qed.
+
+  Lemma target_not_tmp : forall sc p, target sc = Some p -> is_tmp p = false.
+  Proof.
+    intros [|u] p H; cbn [target] in H.
+    - now inversion H.
+    - destruct (file_dict_name u); inversion H. reflexivity.
+  Qed.
+
+  (* what one operation does to the disk *)
+  Lemma step_no_add : forall s o, op_add o = None -> fst (step_op s o) = s.
+  Proof. intros s [sc w|u toks| |sc w i] H; try discriminate; reflexivity. Qed.
+  Lemma step_no_target : forall s o sc w, op_add o = Some (sc, w) -> target sc = None -> fst (step_op s o) = s.
+  Proof.
+    intros s [sc' w'|u toks| |sc' w' i] sc w H Ht; inversion H; subst; cbn [DictIO.step_op fst].
+    - unfold DictIO.add_word. now rewrite Ht.
+    - unfold add_crash_states, DictIO.add_word. rewrite Ht. destruct i as [|[|i]]; reflexivity.
+  Qed.
+  Lemma step_add_spec : forall s o sc w p, op_add o = Some (sc, w) -> target sc = Some p -> fs_ok s -> line_safe w ->
+    (dict_at p (fst (step_op s o)) = dict_at p s \/
+     dict_equiv (dict_at p (fst (step_op s o))) (append_word (dict_at p s) w))
+    /\ fs_ok (fst (step_op s o))
+    /\ forall q, q <> p -> q <> TmpP p -> load_dict q (fst (step_op s o)) = load_dict q s.
+  Proof.
+    intros s o sc w p Ho Ht Hok Hw. assert (Hp : is_tmp p = false) by now apply (target_not_tmp sc).
+    assert (Hadd : (dict_at p (add_word sc w s) = dict_at p s \/
+                    dict_equiv (dict_at p (add_word sc w s)) (append_word (dict_at p s) w))
+                   /\ fs_ok (add_word sc w s)
+                   /\ forall q, q <> p -> q <> TmpP p -> load_dict q (add_word sc w s) = load_dict q s).
+    { unfold DictIO.add_word. rewrite Ht. destruct (add_to_spec p w s Hok Hp Hw) as [H1 [H2 H3]].
+      split; [now right|]. now split. }
+    destruct o as [sc' w'|u toks| |sc' w' i]; inversion Ho; subst sc' w'; cbn [DictIO.step_op fst]; [exact Hadd|].
+    destruct (nth_in_or_default i (add_crash_states is_lower lower iter_order sc w s) (add_word sc w s)) as [Hin|Hd];
+      [|rewrite Hd; exact Hadd].
+    set (s' := nth i (add_crash_states is_lower lower iter_order sc w s) (add_word sc w s)) in *.
+    unfold add_crash_states in Hin. rewrite Ht in Hin.
+    set (D := append_word (dict_at p s) w) in *.
+    assert (HwfD : dict_wf D) by (apply wf_append, wf_dict_at).
+    assert (HsD : Forall line_safe (words_of D)) by now apply safe_appended.
+    destruct (save_crash_sound p _ s s' Hin) as [Hcases Hoth].
+    assert (Hothl : forall q, q <> p -> q <> TmpP p -> load_dict q s' = load_dict q s).
+    { intros q H1 H2. unfold DictIO.load_dict. now rewrite Hoth. }
+    split; [now apply add_crash|]. split; [|exact Hothl].
+    intros q d Hq Hl. destruct (path_eqb q p) eqn:E.
+    - apply path_eqb_eq in E. subst q. destruct Hcases as [[Ha _]|[Ha _]].
+      + apply (Hok p d Hp). unfold DictIO.load_dict in *. now rewrite <- Ha.
+      + destruct (load_serialized p s' D HwfD HsD Ha) as [d' [Hl' [_ Hs']]]. rewrite Hl' in Hl.
+        inversion Hl; now subst.
+    - assert (q <> p) by (intro; subst; rewrite path_eqb_refl in E; discriminate).
+      rewrite Hothl in Hl; [now apply (Hok q)|assumption|now apply not_tmp_neq].
+  Qed.
+
+  Lemma step_ok : forall s o, fs_ok s -> op_safe o -> fs_ok (fst (step_op s o)).
+  Proof.
+    intros s o H Ho. destruct (op_add o) as [[sc w]|] eqn:Ea; [|now rewrite step_no_add].
+    destruct (target sc) as [p|] eqn:Ht; [|now rewrite (step_no_target s o sc w)].
+    assert (Hw : line_safe w) by (destruct o; inversion Ea; subst; exact Ho).
+    now destruct (step_add_spec s o sc w p Ea Ht H Hw) as [_ [H2 _]].
+  Qed.
+  Lemma run_ok : forall h s, fs_ok s -> Forall op_safe h -> fs_ok (run_fs s h).
+  Proof.
+    induction h as [|o r IH]; intros s H Hh; [exact H|]. inversion Hh; subst. rewrite run_fs_cons.
+    apply IH; [now apply step_ok|assumption].
+  Qed.
+
+  Lemma add_establishes : forall sc w s p, fs_ok s -> line_safe w -> target sc = Some p ->
+    has_word p w (add_word sc w s).
+  Proof.
+    intros sc w s p H Hw Ht. unfold has_word, DictIO.add_word. rewrite Ht.
+    destruct (add_to_spec p w s H (target_not_tmp _ _ Ht) Hw) as [He _]. exists w. rewrite He.
+    unfold DictIO.append_word. split; [apply lookup_insert_same|reflexivity].
+  Qed.
+
+  (* a later operation keeps the word, unless it adds (or dies adding) to the same file a spelling with the
+     same id that differs from w in more than the kind of apostrophe *)
+  Lemma step_keeps : forall p w s o, is_tmp p = false -> fs_ok s -> op_safe o -> has_word p w s ->
+    (forall sc' w', op_add o = Some (sc', w') -> target sc' = Some p -> wid w' = wid w -> normalized w' = normalized w) ->
+    has_word p w (fst (step_op s o)).
+  Proof.
+    intros p w s o Hp H Ho Hh Hcol. destruct (op_add o) as [[sc w']|] eqn:Ea; [|now rewrite step_no_add].
+    destruct (target sc) as [p'|] eqn:Ht; [|now rewrite (step_no_target s o sc w')].
+    assert (Hw : line_safe w') by (destruct o; inversion Ea; subst; exact Ho).
+    destruct (step_add_spec s o sc w' p' Ea Ht H Hw) as [Hd [_ Hoth]].
+    destruct (path_eqb p' p) eqn:E.
+    - apply path_eqb_eq in E. subst p'. unfold has_word. destruct Hd as [Hd|Hd]; [now rewrite Hd|].
+      rewrite Hd. unfold DictIO.append_word.
+      destruct (weqb (wid w') (wid w)) eqn:Ew.
+      + apply weqb_eq in Ew. exists w'. rewrite <- Ew. split; [apply lookup_insert_same|].
+        now apply (Hcol sc w').
+      + apply weqb_neq in Ew. rewrite lookup_insert_other by congruence. exact Hh.
+    - assert (Hne : p <> p') by (intro; subst; rewrite path_eqb_refl in E; discriminate).
+      unfold has_word, DictIO.dict_at. rewrite Hoth; [exact Hh|exact Hne|now apply not_tmp_neq].
+  Qed.
+
+  Lemma run_keeps : forall p w h s, is_tmp p = false -> fs_ok s -> Forall op_safe h -> has_word p w s ->
+    (forall o sc' w', In o h -> op_add o = Some (sc', w') -> target sc' = Some p -> wid w' = wid w ->
+       normalized w' = normalized w) ->
+    has_word p w (run_fs s h).
+  Proof.
+    intros p w. induction h as [|o r IH]; intros s Hp H Hh Hw Hcol; [exact Hw|].
+    inversion Hh; subst. rewrite run_fs_cons. apply IH.
+    - exact Hp.
+    - now apply step_ok.
+    - assumption.
+    - apply step_keeps; try assumption. intros sc' w' E. apply (Hcol o); [now left|exact E].
+    - intros o' sc' w' Hin. apply Hcol. now right.
+  Qed.
+
+  (* after AddWord sc w, every later check of a document in scope accepts w — across further adds, checks,
+     restarts and adds that DIE AT ANY CRASH POINT, provided the two remaining known classes are excluded
+     (see the _refuted theorems): a curated entry of another dialect (FC07b), a later add to the same file of
+     another spelling with the same case-folded id (F15) *)
+  Theorem add_sequential : forall s0 h1 sc w h2 u p,
+    fs_ok s0 ->
+    Forall op_safe (h1 ++ AddWord sc w :: h2) ->
+    (forall e, lookup (wid w) curated = Some e -> snd e = true) ->
+    target sc = Some p ->
+    (forall o sc' w', In o h2 -> op_add o = Some (sc', w') -> target sc' = Some p -> wid w' = wid w ->
+       normalized w' = normalized w) ->
+    (p = UserP \/ exists n, file_dict_name u = Some n /\ p = FileP n) ->
+    accepted (children (run_fs s0 (h1 ++ AddWord sc w :: h2)) u) w = true.
+  Proof.
+    intros s0 h1 sc w h2 u p H0 Hsafe Hc Ht Hcol Hscope.
+    apply Forall_app in Hsafe. destruct Hsafe as [Hs1 Hs2]. inversion Hs2 as [|? ? Hw Hs3]; subst.
+    rewrite run_fs_app, run_fs_cons. cbn [DictIO.step_op fst].
+    set (s1 := run_fs s0 h1). assert (H1 : fs_ok s1) by now apply run_ok.
+    assert (Hhas : has_word p w (run_fs (add_word sc w s1) h2)).
+    { apply run_keeps; try assumption;
+        [now apply (target_not_tmp sc)|apply (step_ok s1 (AddWord sc w) H1 Hw)|now apply add_establishes]. }
+    destruct Hhas as [c [Hl Hn]].
+    unfold DictIO.children. apply (accepted_has _ _ _ c); try assumption; try apply wf_dict_at.
+    - unfold DictIO.file_dict. destruct (file_dict_name u); [apply wf_dict_at|apply wf_nil].
+    - destruct Hscope as [Hp|[n [Hn1 Hn2]]]; subst p; [now left|right]. unfold DictIO.file_dict. now rewrite Hn1.
+  Qed.
+
+  (* a word added to the dictionary of one file leaves the checks of every document with another
+     dictionary file exactly as they were *)
+  Theorem file_scope : forall u0 n w s u toks,
+    file_dict_name u0 = Some n -> file_dict_name u <> Some n ->
+    lint (add_word (SFile u0) w s) u toks = lint s u toks.
+  Proof.
+    intros u0 n w s u toks H0 Hu. unfold DictIO.lint, DictIO.children, DictIO.add_word. cbn [target]. rewrite H0.
+    rewrite dict_at_other by discriminate.
+    assert (E : file_dict u (add_to (FileP n) w s) = file_dict u s).
+    { unfold DictIO.file_dict. destruct (file_dict_name u) as [n'|]; [|reflexivity].
+      apply dict_at_other; [|discriminate]. intro E. inversion E. subst. now apply Hu. }
+    now rewrite E.
+  Qed.
+
+  (* ... and an add changes the verdict on no word with another id *)
+  Theorem other_words_unchanged : forall sc w s u t,
+    fs_ok s -> line_safe w ->
+    wid t <> wid w -> wid (to_lower t) <> wid w ->
+    accepted (children (add_word sc w s) u) t = accepted (children s u) t.
+  Proof.
+    intros sc w s u t H Hw H1 H2. unfold DictIO.children, DictIO.add_word.
+    destruct (target sc) as [p|] eqn:Ht; [|reflexivity].
+    assert (Hp : is_tmp p = false) by now apply (target_not_tmp sc).
+    assert (Hk : forall q k, is_tmp q = false -> k = wid t \/ k = wid (to_lower t) ->
+                 lookup k (dict_at q (add_to p w s)) = lookup k (dict_at q s)).
+    { intros q k Hq Hk. destruct (path_eqb q p) eqn:E.
+      - apply path_eqb_eq in E. subst q. destruct (add_to_spec p w s H Hp Hw) as [He _]. rewrite He.
+        unfold DictIO.append_word. apply lookup_insert_other. destruct Hk; subst k; congruence.
+      - assert (q <> p) by (intro; subst; rewrite path_eqb_refl in E; discriminate).
+        rewrite dict_at_other; [reflexivity|assumption|now apply not_tmp_neq]. }
+    apply accepted_agree.
+    - intros k Hkk. now apply Hk.
+    - intros k Hkk. unfold DictIO.file_dict. destruct (file_dict_name u); [now apply Hk|reflexivity].
+  Qed.
+
+
+  (* ---------------------------------------------------------------------------------------------- *)
+  (*  the per-document linter cache is transparent                                                    *)
+  (* ---------------------------------------------------------------------------------------------- *)
+  (* two well-formed dictionaries with the same words (as multisets) are the same map *)
+  Lemma perm_words_equiv : forall U U', dict_wf U -> dict_wf U' ->
+    Permutation (words_of U) (words_of U') -> dict_equiv U U'.
+  Proof.
+    assert (Hone : forall U U', dict_wf U -> dict_wf U' -> Permutation (words_of U) (words_of U') ->
+               forall k e, lookup k U = Some e -> lookup k U' = Some e).
+    { intros U U' [ND H] HU' P k [c b] L. pose proof (lookup_in _ _ _ L) as Hin.
+      destruct (H k (c, b) Hin) as [Hk Hb]. cbn in Hk, Hb. subst b k.
+      assert (Hc : In c (words_of U')).
+      { apply (Permutation_in _ P). unfold words_of. apply in_map_iff. exists (wid c, (c, true)). now split. }
+      apply (wf_word_key _ _ HU') in Hc. apply in_lookup; [apply HU'|exact Hc]. }
+    intros U U' HU HU' P k. destruct (lookup k U) as [e|] eqn:L.
+    - symmetry. now apply (Hone U U').
+    - destruct (lookup k U') as [e|] eqn:L'; [|reflexivity].
+      apply (Hone U' U HU' HU (Permutation_sym P)) in L'. congruence.
+  Qed.
+  Lemma child_hash_perm : forall U U', child_hash_eqb (child_words iter_order U) (child_words iter_order U') = true ->
+    Permutation (words_of U) (words_of U').
+  Proof.
+    intros U U' H. unfold child_hash_eqb, child_words, DictIO.words_iter in H. apply perm_ofb_spec in H.
+    eapply Permutation_trans; [apply Permutation_sym, iter_perm|]. eapply Permutation_trans; [exact H|apply iter_perm].
+  Qed.
+
+  Definition good_children (cs : list dict) : Prop :=
+    exists U F, cs = [curated; U; F] /\ dict_wf U /\ dict_wf F.
+  Definition cache_ok (c : cache) : Prop := Forall (fun e => good_children (snd e)) c.
+
+  Lemma children_good : forall s u, good_children (children s u).
+  Proof.
+    intros s u. exists (dict_at UserP s), (file_dict u s). split; [reflexivity|]. split; [apply wf_dict_at|].
+    unfold DictIO.file_dict. destruct (file_dict_name u); [apply wf_dict_at|apply wf_nil].
+  Qed.
+  Lemma cache_get_good : forall u c cs, cache_ok c -> cache_get u c = Some cs -> good_children cs.
+  Proof.
+    intros u c cs H. induction H as [|[u' cs'] t Hg Ht IH]; cbn [cache_get]; [discriminate|].
+    destruct (url_eqb u u'); [intro E; inversion E; now subst|exact IH].
+  Qed.
+  Lemma cache_set_ok : forall u cs c, cache_ok c -> good_children cs -> cache_ok (cache_set u cs c).
+  Proof.
+    intros u cs c H Hg. unfold cache_set. constructor; [exact Hg|]. apply Forall_forall. intros e He.
+    apply filter_In in He. destruct He as [He _]. now apply (proj1 (Forall_forall _ _) H).
+  Qed.
+
+  (* the children the cached linter was built with decide every token as the freshly loaded ones do *)
+  Lemma cached_children_spec : forall c s u, cache_ok c ->
+    good_children (cached_children is_lower lower curated iter_order c s u) /\
+    forall t, accepted (cached_children is_lower lower curated iter_order c s u) t = accepted (children s u) t.
+  Proof.
+    intros c s u Hc. unfold cached_children.
+    destruct (cache_get u c) as [old|] eqn:G; [|split; [apply children_good|reflexivity]].
+    destruct (hashes_eqb iter_order old (children s u)) eqn:Hh; [|split; [apply children_good|reflexivity]].
+    pose proof (cache_get_good u c old Hc G) as Hold. split; [exact Hold|].
+    destruct Hold as [U [F [E [HU HF]]]]. destruct (children_good s u) as [U' [F' [E' [HU' HF']]]].
+    rewrite E' in *. subst old. cbn [hashes_eqb] in Hh. apply andb_true_iff in Hh. destruct Hh as [H1 H2].
+    apply child_hash_perm in H1. apply child_hash_perm in H2.
+    pose proof (perm_words_equiv U U' HU HU' H1) as E1. pose proof (perm_words_equiv F F' HF HF' H2) as E2.
+    intro t. apply accepted_agree; intros k _; [apply E1|apply E2].
+  Qed.
+
+  Theorem cache_transparent : forall h s c, cache_ok c ->
+    snd (run_cached is_lower lower curated iter_order (s, c) h) = snd (run s h) /\
+    fst (fst (run_cached is_lower lower curated iter_order (s, c) h)) = fst (run s h).
+  Proof.
+    induction h as [|o r IH]; intros s c Hc; [split; reflexivity|].
+    cbn [run_cached DictIO.run].
+    assert (Hstep : exists c', cache_ok c' /\
+              step_op_cached is_lower lower curated iter_order (s, c) o = ((fst (step_op s o), c'), snd (step_op s o))).
+    { destruct o as [sc w|u toks| |sc w i]; cbn [step_op_cached DictIO.step_op fst snd].
+      - exists c. now split.
+      - destruct (cached_children_spec c s u Hc) as [Hg Ha].
+        exists (cache_set u (cached_children is_lower lower curated iter_order c s u) c).
+        split; [now apply cache_set_ok|]. f_equal. unfold DictIO.lint. apply map_ext. intro t. now rewrite Ha.
+      - exists []. split; [constructor|reflexivity].
+      - exists []. split; [constructor|reflexivity]. }
+    destruct Hstep as [c' [Hc' Hs]]. rewrite Hs. destruct (step_op s o) as [s1 out]. cbn [fst snd].
+    destruct (IH s1 c' Hc') as [H1 H2].
+    destruct (run_cached is_lower lower curated iter_order (s1, c') r) as [st'' outs].
+    destruct (run s1 r) as [s'' outs']. cbn [fst snd] in *. split; [now f_equal|exact H2].
+  Qed.
+
+  (* a server started with no document open answers every check as if it built a new linter each time *)
+  Corollary cache_transparent_fresh : forall h s,
+    snd (run_cached is_lower lower curated iter_order (s, []) h) = snd (run s h) /\
+    fst (fst (run_cached is_lower lower curated iter_order (s, []) h)) = run_fs s h.
+  Proof. intros h s. apply cache_transparent. constructor. Qed.
+
+  (* ---------------------------------------------------------------------------------------------- *)
+  (*  harper_wasm::Linter: the lint dictionary follows the user dictionary                            *)
+  (* ---------------------------------------------------------------------------------------------- *)
+  Lemma entry_eqb_eq : forall a b : entry, entry_eqb a b = true -> a = b.
+  Proof.
+    intros [a1 a2] [b1 b2] H. unfold entry_eqb in H. cbn [fst snd] in H. apply andb_true_iff in H. destruct H as [H1 H2].
+    apply weqb_eq in H1. apply Bool.eqb_prop in H2. now subst.
+  Qed.
+  (* HashMap equality of two maps with distinct keys is extensional equality *)
+  Lemma dict_same_equiv : forall a b, NoDup (map fst a) -> NoDup (map fst b) -> dict_same a b = true -> dict_equiv a b.
+  Proof.
+    intros a b Na Nb H. unfold dict_same in H. apply andb_true_iff in H. destruct H as [Hl Hf].
+    apply Nat.eqb_eq in Hl. rewrite forallb_forall in Hf.
+    assert (Hab : forall k e, In (k, e) a -> lookup k b = Some e).
+    { intros k e Hin. specialize (Hf (k, e) Hin). cbn [fst snd] in Hf. destruct (lookup k b) as [e'|]; [|discriminate].
+      apply entry_eqb_eq in Hf. now subst. }
+    assert (Hincl : incl (map fst b) (map fst a)).
+    { apply NoDup_length_incl; [exact Na|rewrite !map_length; lia|].
+      intros k Hk. apply in_map_iff in Hk. destruct Hk as [[k' e] [E Hin]]. cbn in E. subst k'.
+      apply Hab, lookup_in in Hin. change k with (fst (k, e)). now apply in_map. }
+    intro k. destruct (lookup k a) as [e|] eqn:L.
+    - symmetry. apply Hab. now apply lookup_in.
+    - destruct (lookup k b) as [e'|] eqn:L'; [|reflexivity]. exfalso.
+      apply lookup_in in L'. assert (Hk : In k (map fst a)) by (apply Hincl; change k with (fst (k, e')); now apply in_map).
+      apply in_map_iff in Hk. destruct Hk as [[k' e] [E Hin]]. cbn in E. subst k'.
+      apply (in_lookup _ _ _ Na) in Hin. congruence.
+  Qed.
+
+  Definition wasm_ok (st : wasm) : Prop := dict_wf (w_user st) /\ dict_equiv (w_lint st) (w_user st).
+  Lemma wasm_new_ok : wasm_ok wasm_new.
+  Proof. split; [apply wf_nil|intro k; reflexivity]. Qed.
+  Lemma wasm_import_ok : forall st ws, wasm_ok st -> wasm_ok (import_words is_lower lower st ws).
+  Proof.
+    intros st ws [Hwf He]. unfold import_words.
+    assert (Hwf' : dict_wf (extend_words (w_user st) ws)) by now apply wf_extend.
+    destruct (dict_same (extend_words (w_user st) ws) (w_user st)) eqn:E; split; cbn [w_user w_lint]; try exact Hwf'.
+    - apply (dict_same_equiv _ _ (proj1 Hwf') (proj1 Hwf)) in E. intro k. now rewrite He, E.
+    - intro k. reflexivity.
+  Qed.
+  Lemma wasm_fold_ok : forall imports st, wasm_ok st -> wasm_ok (fold_left (import_words is_lower lower) imports st).
+  Proof.
+    induction imports as [|ws r IH]; intros st H; [exact H|]. cbn [fold_left]. apply IH. now apply wasm_import_ok.
+  Qed.
+  (* after any sequence of imports the linter checks with the dictionary that export_words shows *)
+  Theorem wasm_in_sync : forall imports,
+    let st := fold_left (import_words is_lower lower) imports wasm_new in
+    dict_equiv (w_lint st) (w_user st) /\
+    forall toks, wasm_lint is_lower lower curated st toks = map (fun t => negb (accepted [curated; w_user st] t)) toks.
+  Proof.
+    intro imports. cbn zeta.
+    assert (Hok : wasm_ok (fold_left (import_words is_lower lower) imports wasm_new))
+      by apply wasm_fold_ok, wasm_new_ok.
+    destruct Hok as [_ He]. split; [exact He|]. intro toks. unfold wasm_lint. apply map_ext. intro t. f_equal.
+    unfold DictIO.accepted, DictIO.m_contains_exact. cbn [DictIO.m_get_meta existsb].
+    unfold DictIO.get_meta, DictIO.contains_exact_word. now rewrite !He.
+  Qed.
+  (* a word just imported is accepted (unless the curated dictionary lists it for another dialect: FC07b) *)
+  Theorem wasm_import_accepts : forall imports ws w,
+    let st := import_words is_lower lower (fold_left (import_words is_lower lower) imports wasm_new) ws in
+    (forall e, lookup (wid w) curated = Some e -> snd e = true) ->
+    (exists pre post, ws = pre ++ w :: post /\ forall w', In w' post -> wid w' = wid w -> normalized w' = normalized w) ->
+    wasm_lint is_lower lower curated st [w] = [false].
+  Proof.
+    intros imports ws w. cbn zeta. intros Hc [pre [post [Ews Hpost]]].
+    pose proof (wasm_in_sync (imports ++ [ws])) as Hs. cbn zeta in Hs. rewrite fold_left_app in Hs. cbn [fold_left] in Hs.
+    destruct Hs as [_ Hl]. rewrite Hl. cbn [map]. f_equal. apply negb_false_iff.
+    set (st0 := fold_left (import_words is_lower lower) imports wasm_new).
+    assert (Hu : w_user (import_words is_lower lower st0 ws) = extend_words (w_user st0) ws).
+    { unfold import_words. now destruct (dict_same _ _). }
+    rewrite Hu.
+    assert (Hhas : exists c, lookup (wid w) (extend_words (w_user st0) ws) = Some (c, true) /\ normalized c = normalized w).
+    { clear Hu Hl. subst ws. unfold DictIO.extend_words. rewrite fold_left_app. cbn [fold_left].
+      fold (extend_words (w_user st0) pre). fold (extend_words (append_word (extend_words (w_user st0) pre) w) post).
+      induction post as [|a post IH] using rev_ind.
+      - exists w. cbn. unfold DictIO.append_word. split; [apply lookup_insert_same|reflexivity].
+      - rewrite extend_snoc. unfold DictIO.append_word at 1.
+        assert (Hpost' : forall w', In w' post -> wid w' = wid w -> normalized w' = normalized w).
+        { intros w' Hin. apply Hpost. apply in_or_app. now left. }
+        destruct (weqb (wid a) (wid w)) eqn:Ea.
+        + apply weqb_eq in Ea. exists a. rewrite <- Ea. split; [apply lookup_insert_same|].
+          apply Hpost; [apply in_or_app; right; now left|exact Ea].
+        + apply weqb_neq in Ea. rewrite lookup_insert_other by congruence. apply IH. exact Hpost'. }
+    destruct Hhas as [c [Hl' Hn]].
+    assert (Hwf : dict_wf (extend_words (w_user st0) ws)).
+    { apply wf_extend. apply (wasm_fold_ok imports wasm_new wasm_new_ok). }
+    unfold DictIO.accepted.
+    assert (Hex : m_contains_exact [curated; extend_words (w_user st0) ws] w = true).
+    { unfold DictIO.m_contains_exact. cbn [existsb]. rewrite (exact_has _ w c Hn Hl'). now rewrite orb_true_r. }
+    rewrite Hex. cbn [orb DictIO.m_get_meta]. unfold DictIO.get_meta.
+    destruct (lookup (wid w) curated) as [e|] eqn:L1; [rewrite andb_true_r; now apply Hc|].
+    rewrite Hl'. reflexivity.
+  Qed.
+
 End Proofs.
 
 (* ------------------------------------------------------------------------------------------------ *)
-(*  the linter cache of an open document is rebuilt after an add                                      *)
+(*  the linter cache of an open document is rebuilt exactly when a child dictionary changed           *)
 (* ------------------------------------------------------------------------------------------------ *)
-Lemma length_concat_perm : forall (a b : list word), Permutation a b -> length (concat a) = length (concat b).
+Lemma insert_same_entry : forall k e d, lookup k d = Some e -> insert k e d = d.
 Proof.
-  intros a b P. induction P; cbn [concat]; rewrite ?app_length; lia.
+  intros k e d. induction d as [|[k' e'] t IH]; cbn [lookup insert]; intro H; [discriminate|].
+  destruct (weqb k k') eqn:E.
+  - apply weqb_eq in E. inversion H. now subst.
+  - now rewrite IH.
 Qed.
-Lemma words_of_insert_new : forall k e d, lookup k d = None -> words_of (insert k e d) = words_of d ++ [fst e].
-Proof.
-  intros k e d. induction d as [|[k' e'] t IH]; cbn [lookup insert]; intro H; [reflexivity|].
-  destruct (weqb k k'); [discriminate|]. unfold words_of in *. cbn [map]. now rewrite IH.
-Qed.
-(* partial: for a non-empty word with a NEW id the hashed stream gets longer, whatever the two iteration
-   orders are, so the child hash changes and update_document builds a new linter.  Not covered (and false
-   in corner cases, see notes/C07.md): the empty word (stream unchanged) and the replacement of a spelling
-   with the same id ({"aA","A"} -> {"Aa","A"} can hash the same stream "AaA" in suitable orders). *)
-Theorem merge_rebuild_partial : forall (is_lower : N -> bool) (lower : N -> list N) (o1 o2 : list word -> list word),
+(* the child hash (sum of the per-word hashes, modelled as the multiset of words) of a well-formed
+   dictionary changes with EVERY add that changes the dictionary — a new word, or a new spelling of a known
+   id — whatever the two iteration orders are; and only then *)
+Theorem merge_rebuild : forall (is_lower : N -> bool) (lower : N -> list N) (o1 o2 : list word -> list word),
   (forall l, Permutation (o1 l) l) -> (forall l, Permutation (o2 l) l) ->
-  forall (d : dict) (w : word),
-  lookup (word_id is_lower lower w) d = None -> w <> [] ->
-  child_stream o1 d <> child_stream o2 (append_word is_lower lower d w).
+  forall (d : dict) (w : word), dict_wf is_lower lower d ->
+  (lookup (word_id is_lower lower w) d <> Some (w, true) ->
+   child_hash_eqb (child_words o1 d) (child_words o2 (append_word is_lower lower d w)) = false) /\
+  (lookup (word_id is_lower lower w) d = Some (w, true) ->
+   append_word is_lower lower d w = d /\
+   child_hash_eqb (child_words o1 d) (child_words o2 (append_word is_lower lower d w)) = true).
 Proof.
-  intros is_lower lower o1 o2 P1 P2 d w Hnew Hw E. apply (f_equal (@length N)) in E.
-  unfold child_stream, words_iter, append_word in E.
-  rewrite (length_concat_perm _ _ (P1 _)), (length_concat_perm _ _ (P2 _)) in E.
-  rewrite words_of_insert_new in E by exact Hnew. cbn [fst] in E.
-  rewrite concat_app, app_length in E. cbn [concat] in E. rewrite app_nil_r in E.
-  destruct w; [now apply Hw|cbn [length] in E; lia].
+  intros is_lower lower o1 o2 P1 P2 d w Hwf. split.
+  - intro Hne. destruct (child_hash_eqb _ _) eqn:E; [|reflexivity]. exfalso. apply Hne.
+    unfold child_hash_eqb, child_words, words_iter in E. apply perm_ofb_spec in E.
+    assert (Hin : In w (words_of (append_word is_lower lower d w))).
+    { unfold words_of, append_word. apply in_map_iff. exists (word_id is_lower lower w, (w, true)).
+      split; [reflexivity|]. apply lookup_in, lookup_insert_same. }
+    apply (Permutation_in _ (Permutation_sym (P2 _))) in Hin. apply (Permutation_in _ (Permutation_sym E)) in Hin.
+    apply (Permutation_in _ (P1 _)) in Hin. apply (wf_word_key is_lower lower _ _ Hwf) in Hin.
+    apply in_lookup; [apply Hwf|exact Hin].
+  - intro H. assert (E : append_word is_lower lower d w = d) by (unfold append_word; now apply insert_same_entry).
+    split; [exact E|]. rewrite E. unfold child_hash_eqb, child_words, words_iter. apply perm_ofb_spec.
+    eapply Permutation_trans; [apply P1|apply Permutation_sym, P2].
 Qed.
 (* ------------------------------------------------------------------------------------------------ *)
 (*  file_dict_name                                                                                    *)
@@ -983,11 +1382,16 @@ Lemma newline_refuted :
   awords UserP (arun fs_empty [AddWord SUser w_flurb_nl]) = Some [w_fl; w_urb].
 Proof. vm_compute. reflexivity. Qed.
 
-(* the canonical spelling is stored raw but compared with the normalised token: a word with a
-   typographic apostrophe is never accepted *)
-Lemma apostrophe_refuted :
-  line_safe w_blorfs /\ aacc [] (arun fs_empty [AddWord SUser w_blorfs]) u_doc w_blorfs = false.
-Proof. vm_compute. split; reflexivity. Qed.
+(* FC07a, repaired by ebb53b3 (regression example): the canonical spelling is stored raw; since both sides
+   of the exact test are normalised, a word with a typographic apostrophe is accepted once added, and so is
+   its spelling with the ASCII apostrophe *)
+Definition w_blorfs_ascii : word := [98; 108; 111; 114; 102; 39; 115]%N.    (* "blorf's" *)
+Lemma apostrophe_accepted :
+  line_safe w_blorfs /\ normalized w_blorfs <> w_blorfs /\
+  aacc [] fs_empty u_doc w_blorfs = false /\
+  aacc [] (arun fs_empty [AddWord SUser w_blorfs]) u_doc w_blorfs = true /\
+  aacc [] (arun fs_empty [AddWord SUser w_blorfs]) u_doc w_blorfs_ascii = true.
+Proof. vm_compute. repeat split; try reflexivity. discriminate. Qed.
 
 (* a word the curated dictionary lists for another dialect: the token takes the curated metadata
    (first child wins), whose dialect test fails, whatever the user dictionary says *)
@@ -998,13 +1402,24 @@ Lemma dialect_refuted :
     w_colour = false.
 Proof. vm_compute. reflexivity. Qed.
 
-(* F14: File::create truncates before anything is written: a crash there reloads to the EMPTY
-   dictionary — every earlier word is lost, not just the one being added *)
-Lemma crash_refuted :
+(* F14, repaired by 87b8642 (history): under the OLD protocol File::create truncated the dictionary before
+   anything was written: the crash state after it reloads to the EMPTY dictionary — every earlier word is
+   lost, not just the one being added *)
+Lemma crash_old_refuted :
   let s0 := arun fs_empty [AddWord SUser w_alpha; AddWord SUser w_beta] in
+  let ws := words_iter id_order (append_word a_is_lower a_lower (dict_at a_is_lower a_lower UserP s0) w_gamma) in
   awords UserP s0 = Some [w_alpha; w_beta] /\
-  exists i, awords UserP (arun s0 [CrashAdd SUser w_gamma i]) = Some [].
-Proof. vm_compute. split; [reflexivity|]. exists 2. reflexivity. Qed.
+  exists i, (i <? length (crash_states None (s0, []) (save_effects_old UserP ws))) = true /\
+            awords UserP (nth i (crash_states None (s0, []) (save_effects_old UserP ws)) s0) = Some [].
+Proof. vm_compute. split; [reflexivity|]. exists 2. split; reflexivity. Qed.
+(* ... and now: every crash point of the same add reloads to {alpha, beta} or {alpha, beta, gamma} *)
+Lemma crash_example :
+  let s0 := arun fs_empty [AddWord SUser w_alpha; AddWord SUser w_beta] in
+  length (add_crash_states a_is_lower a_lower id_order SUser w_gamma s0) = 77 /\
+  forallb (fun i => match awords UserP (arun s0 [CrashAdd SUser w_gamma i]) with
+                    | Some ws => perm_ofb ws [w_alpha; w_beta] || perm_ofb ws [w_alpha; w_beta; w_gamma]
+                    | None => false end) (seq 0 80) = true.
+Proof. vm_compute. split; reflexivity. Qed.
 
 (* F20 *)
 Lemma file_dict_name_refuted :
@@ -1016,20 +1431,27 @@ Lemma file_scope_refuted :
   aacc [] fs_empty (FileUrl p_a_pct_b) w_zorgle = false /\ aacc [] s (FileUrl p_a_pct_b) w_zorgle = true.
 Proof. vm_compute. split; reflexivity. Qed.
 
-(* harper-wasm: import_words re-synchronises the lint dictionary only when the word COUNT grows *)
+(* harper-wasm (F15, wasm half; repaired by ba0a239): import_words used to re-synchronise the lint dictionary
+   only when the word COUNT grew: after Zorgle, zorgle the linter still had Zorgle and reported zorgle *)
 Definition tb_zorgle : ctable :=
   (90%N, (false, [122%N])) :: map (fun c : N => (c, (true, [c]))) [122; 111; 114; 103; 108; 101]%N.
-Lemma wasm_resync_refuted :
+Lemma wasm_resync_old_refuted :
+  let st := import_words_old a_is_lower a_lower (import_words_old a_is_lower a_lower wasm_new [w_Zorgle]) [w_zorgle] in
+  wasm_lint a_is_lower a_lower [] st [w_zorgle] = [true] /\ export_words id_order st = [w_zorgle].
+Proof. vm_compute. split; reflexivity. Qed.
+(* ... and now *)
+Lemma wasm_resync_example :
   x_wasm tb_zorgle [] [WImport [w_Zorgle]; WImport [w_zorgle]; WLint [w_zorgle]; WExport]
-  = [WONone; WONone; WOFlags [true]; WOWords [w_zorgle]].
+  = [WONone; WONone; WOFlags [false]; WOWords [w_zorgle]].
 Proof. vm_compute. reflexivity. Qed.
 
-(* the same-id corner of merge_rebuild_partial: {aA, A} -> {Aa, A} can hash the same stream "AaA" *)
-Lemma merge_rebuild_refuted_same_id :
+(* FC07f, repaired by f2dc537 (history): the OLD child hash fed the characters of all words to one hasher
+   without separators: {aA, A} -> {Aa, A} could hash the same stream "AaA" *)
+Lemma merge_rebuild_old_refuted_same_id :
   exists (d : dict) (w : word) (o1 o2 : list word -> list word),
     (forall l, Permutation (o1 l) l) /\ (forall l, Permutation (o2 l) l) /\
     words_of (append_word a_is_lower a_lower d w) <> words_of d /\
-    child_stream o1 d = child_stream o2 (append_word a_is_lower a_lower d w).
+    child_stream_old o1 d = child_stream_old o2 (append_word a_is_lower a_lower d w).
 Proof.
   exists (append_word a_is_lower a_lower (append_word a_is_lower a_lower [] [97; 65]%N) [65]%N).
   exists [65; 97]%N, (@rev word), id_order.
